@@ -103,6 +103,42 @@ where
     }
 }
 
+// ---- values whose local reading lies beyond a range end ---------------------------------------------
+
+/// A DateTime whose UTC instant is representable but whose *local* reading is not (within |offset| of a range end,
+/// the offset pointing outwards).  `set_offset` refuses to build such a value; it arises when a value that already
+/// carries the offset is moved there — here with add_/sub_seconds from three days inside (arithmetic is C04's: if the
+/// value does not arrive with the right instant and offset, None).  Its getters and `format` cannot work, but
+/// everything defined on the UTC instant (ordering, differences, further arithmetic, timestamp) must.
+/// Returns (value, instant, offset, at_the_high_end).
+pub fn outward_value(rng: &mut Rng) -> Option<(DateTime, i128, i32, bool)> {
+    use astrolabe::{OffsetUtilities, TimeUtilities};
+    let off = match rng.below(3) {
+        0 => *rng.pick(&[3600i32, 7200, 86_399, 1, 43_200, 19_800]),
+        _ => 1 + rng.below(86_399) as i32,
+    };
+    let high = rng.chance(1, 2);
+    let off = if high { off } else { -off };
+    let depth = rng.range_i128(0, off.unsigned_abs() as i128 * NS - 1);
+    let i = if high { MAX_INSTANT - depth } else { MIN_INSTANT + depth };
+    let back: i128 = 3 * 86_400;
+    let i0 = if high { i - back * NS } else { i + back * NS };
+    let (a0, _) = sane_value(i0, off)?;
+    let a = trap(|| if high { a0.add_seconds(back as u32) } else { a0.sub_seconds(back as u32) }).ok()?;
+    let ok = trap(|| read(&a) == i && a.get_offset() == astrolabe::Offset::Fixed(off)).unwrap_or(false);
+    if ok {
+        Some((a, i, off, high))
+    } else {
+        None
+    }
+}
+
+/// What can be read of such a value without touching its local fields.
+pub fn utc_reads(d: &DateTime) -> String {
+    use astrolabe::OffsetUtilities;
+    format!("nanos_since={} timestamp={} offset={:?} as_ymdhms={:?}", read(d), d.timestamp(), d.get_offset(), d.as_ymdhms())
+}
+
 // ---- Date -----------------------------------------------------------------------------------------
 
 /// Date for the model day number, only if from_timestamp/timestamp/as_ymd agree with the model there.
